@@ -106,7 +106,8 @@ def mergeAdd (qs : List QRec) : QRec :=
     { tQuantizedBits with intBits := i, signed := sg, bits := i + mf.getD 0 + b2i sg }
 
 def sameType (a b : QRec) : Bool :=
-  a.name = b.name && a.bits = b.bits && a.intBits = b.intBits && a.signed = b.signed
+  a.name = b.name && a.bits = b.bits && a.intBits = b.intBits && a.signed = b.signed &&
+    a.maxValPo2 = b.maxValPo2
 
 /-- Maximum / Minimum / Average / Concatenate -/
 def mergeMax (qs : List QRec) : Option QRec :=
